@@ -70,7 +70,15 @@ func newDataStoreSet(l lane.Lane, basePath string, phook *DispatchHook) *dataSto
 }
 
 func (dss *dataStoreSet) save(l lane.Lane) error {
+	// SELECT and the flush commands change the table while the saver runs
+	dss.mu.Lock()
+	dbs := make(map[int]*dataStore, len(dss.dbs))
 	for index, ds := range dss.dbs {
+		dbs[index] = ds
+	}
+	dss.mu.Unlock()
+
+	for index, ds := range dbs {
 		dsc := ds.newDataStoreCommand()
 		err := dsc.save(l, dss.dataStoreFileName(index))
 		if err != nil {
